@@ -10,6 +10,7 @@ racing); each call must return what it returns single-threaded and the cache mus
 Thorough adds spec-independent pre-emption at every Python line of one thread (1 pre-emption)."""
 import multiprocessing as mp
 import os
+import zlib
 import shutil
 import sys
 import tempfile
@@ -18,7 +19,30 @@ import threading
 from harness import common, tlc, replay, sched
 
 POOL = [':nth-child(2n+1)', ':lang(en)', ':-soup-contains("x")', ':dir(ltr)', ':nth-of-type(2)', 'a',
-        'p:lang(en) > :nth-child(2)', ':is(a, :lang(en))']
+        'p:lang(en) > :nth-child(2)', ':is(a, :lang(en))', ':--al > b', 'p:--al:dir(rtl)']
+# patterns that mention the alias are compiled with this (shared, equal) custom map
+def _custom(salt):
+    # a fresh (never seen before) but structurally identical map per replay, so that no cache hidden anywhere
+    # in the library can have been warmed by an earlier replay or by the dry run
+    return {':--al': 'i.s%d:lang(en), :--bl' % salt, ':--bl': 'b:nth-child(2)'}
+
+
+_SALT = [0]
+
+
+def _next_salt():
+    import os
+    _SALT[0] += 1
+    return os.getpid() * 100000 + _SALT[0]
+
+
+def _compile(sv, p, salt=0):
+    return sv.compile(p, custom=_custom(salt)) if ':--' in p else sv.compile(p)
+
+
+def _fresh(p, salt=0):
+    from soupsieve import css_parser as cp, css_types as ct
+    return cp._cached_css_compile.__wrapped__(p, None, ct.CustomSelectors(_custom(salt)) if ':--' in p else None, 0)
 
 
 def _tla_str(s):
@@ -61,10 +85,7 @@ def _winit():
     _W['sv'] = sv
     from soupsieve import css_parser as cp
     _W['cp'] = cp
-    ref = {}
-    for p in POOL:
-        ref[p] = cp._cached_css_compile.__wrapped__(p, None, None, 0)
-    _W['ref'] = ref
+    _W['ref'] = {}
     sys.setswitchinterval(1000)
 
 
@@ -74,8 +95,10 @@ def _replay_chunk(chunk):
     for case in chunk:
         scripts = {t + 1: [POOL[p - 1] for p in sc] for t, sc in enumerate(case['scripts'])}
         sv.purge()
+        salt = _next_salt()
         ctl = sched.Controller(sv, len(scripts))
-        results, leftover, skipped = ctl.run(scripts, case['sched'], lambda x: sv.compile(x))
+        results, leftover, skipped = ctl.run(scripts, case['sched'], lambda x: _compile(sv, x, salt))
+        ref = {p: _fresh(p, salt) for sc in scripts.values() for p in sc}      # fresh parses, computed AFTER the run
         bad = []
         for tid, sc in scripts.items():
             rs = results[tid]
@@ -87,7 +110,7 @@ def _replay_chunk(chunk):
                 elif not (r == ref[p]):
                     bad.append('thread %d compile(%r) returned the structure of another pattern: %r' % (tid, p, r.selectors))
         for p in {p for sc in scripts.values() for p in sc}:
-            again = sv.compile(p)
+            again = _compile(sv, p, salt)
             if not (again == ref[p]):
                 bad.append('cache holds a wrong entry for %r: %r' % (p, again.selectors))
         if leftover or skipped:
@@ -102,11 +125,20 @@ DOC = ('<html lang="en"><head><meta http-equiv="content-language" content="de"><
 SELS = ['p:nth-child(2n+1)', ':lang(en)', ':default', 'div :-soup-contains("x")', ':indeterminate', 'p + p', ':is(p, span):not(.a)']
 
 
-def _do(op):
+def _do(op, salt=0):
     sv = _W['sv']
     kind, p = op
     if kind == 'compile':
-        return sv.compile(p)
+        return _compile(sv, p, salt)
+    if kind == 'fragmatch':
+        # two different detached (parent-less) elements: index chosen by the op
+        import bs4
+        if 'frags' not in _W:
+            s0 = bs4.BeautifulSoup('', 'html.parser')
+            _W['frags'] = [s0.new_tag('p'), s0.new_tag('b')]
+            _W['frags'][1].append(s0.new_tag('i'))
+        css, idx = p
+        return [bool(sv.match(css, _W['frags'][idx])), bool(sv.match(css, _W['frags'][1 - idx]))]
     if 'soup' not in _W:
         import bs4
         _W['soup'] = bs4.BeautifulSoup(DOC, 'html.parser')
@@ -123,12 +155,10 @@ def _line_preempt(args):
     opa, opb, ks = args
     sv = _W['sv']
     sv.purge()
-    expect = {}
-    for op in (opa, opb):
-        expect[op] = _do(op)
     out = []
     for k in ks:
         sv.purge()
+        salt = _next_salt()
         go_b = threading.Event()
         done_b = threading.Event()
         res = {}
@@ -150,7 +180,7 @@ def _line_preempt(args):
         def a():
             sys.settrace(tracer)
             try:
-                res['a'] = ('ok', _do(opa))
+                res['a'] = ('ok', _do(opa, salt))
             except BaseException as e:  # noqa
                 res['a'] = ('exc', type(e).__name__)
             finally:
@@ -160,13 +190,16 @@ def _line_preempt(args):
         def b():
             go_b.wait(20)
             try:
-                res['b'] = ('ok', _do(opb))
+                res['b'] = ('ok', _do(opb, salt))
             except BaseException as e:  # noqa
                 res['b'] = ('exc', type(e).__name__)
             done_b.set()
         ta, tb = threading.Thread(target=a), threading.Thread(target=b)
         ta.start(); tb.start(); ta.join(30); tb.join(30)
         bad = []
+        expect = {}
+        for op in (opa, opb):           # single-threaded expectations, computed AFTER the run
+            expect[op] = _fresh(op[1], salt) if op[0] == 'compile' else _do(op, salt)
         for nm, op in (('a', opa), ('b', opb)):
             kind, r = res.get(nm, ('exc', 'no result'))
             if kind == 'exc':
@@ -174,7 +207,7 @@ def _line_preempt(args):
             elif not (r == expect[op]):
                 bad.append('%s %s(%r) returned %r instead of %r' % (nm, op[0], op[1], getattr(r, 'selectors', r), getattr(expect[op], 'selectors', expect[op])))
         for op in (opa, opb):
-            if op[0] == 'compile' and not (sv.compile(op[1]) == expect[op]):
+            if op[0] == 'compile' and not (_compile(sv, op[1], salt) == expect[op]):
                 bad.append('cache holds a wrong entry for %r' % (op[1],))
         out.append(((opa, opb, k, cnt[0]), bad))
         if cnt[0] < k:
@@ -190,7 +223,7 @@ def main(tier):
     pats = []
     for p in POOL:
         sv.purge()
-        ops, res = sched.dry_run(sv, p, lambda x: sv.compile(x))
+        ops, res = sched.dry_run(sv, p, lambda x: _compile(sv, x, _next_salt()))
         if res[0] != 'ok' or not ops or ops[0]['op'] != 'B':
             chk.machinery('dry run of %r failed: %r' % (p, res))
             return chk.finish()
@@ -200,7 +233,8 @@ def main(tier):
     n = len(POOL)
     if tier == 'quick':
         singles = [1, 2, 3, 4, 5, 6]
-        runs = [(2, 99, [((a,), (b,)) for a in singles for b in singles] + [((7, 2), (1,)), ((2,), (8, 1)), ((1, 2), (2, 1))])]
+        runs = [(2, 99, [((a,), (b,)) for a in singles for b in singles] + [((7, 2), (1,)), ((2,), (8, 1)), ((1, 2), (2, 1))]),
+                (2, 3, [((9,), (10,)), ((10,), (9,)), ((9,), (2,)), ((10, 9), (9,))])]
     else:
         singles = list(range(1, n + 1))
         runs = [(2, 99, [((a,), (b,)) for a in singles for b in singles]),
@@ -240,22 +274,26 @@ def main(tier):
                 scr = [[POOL[p - 1] for p in sc] for sc in case['scripts']]
                 for b in bad:
                     if b.startswith('MACHINERY'):
-                        chk.machinery(b + ' scripts=%r sched=%r' % (scr, case['sched']))
+                        # the code's pre-emption structure differs from the dry run although every result is right:
+                        # model/code drift (e.g. a cache changed how often the alias is parsed), not a verdict
+                        chk.drift.append({'diverged': b, 'scripts': scr, 'schedule': case['sched']})
                     else:
                         chk.violation('%s|%r|%r' % (b, scr, case['sched']), '%s under schedule %r of scripts %r' % (b, case['sched'], scr),
                                       {'cfg': 'schedules', 'group': b[:70], 'scripts': scr, 'schedule': case['sched']})
         chk.count(nsched, traces=nsched)
         chk.add_distinct(nsched)
         chk.sample({'scripts': [[POOL[p - 1] for p in sc] for sc in cases[0]['scripts']], 'schedule': cases[0]['sched']})
-        ops = [('compile', p) for p in POOL[:6]] + [('select', x) for x in SELS] + [('match', SELS[1]), ('filter', SELS[0])]
+        ops = [('compile', p) for p in POOL[:6] + POOL[8:]] + [('select', x) for x in SELS] + [('match', SELS[1]), ('filter', SELS[0])] + \
+            [('fragmatch', (':first-child', 0)), ('fragmatch', ('p:only-child, b:nth-child(1)', 1)), ('fragmatch', (':nth-last-of-type(1)', 0))]
         jobs = []
         step = 1 if tier == 'thorough' else 9
         limit = 4000 if tier == 'thorough' else 900
         pairs = [(x, y) for x in ops for y in ops if x != y]
         if tier == 'quick':
-            pairs = [pr for n, pr in enumerate(pairs) if n % 5 == common.SEED % 5]
+            always = lambda o: o[0] == 'fragmatch' or (o[0] == 'compile' and ':--' in o[1])  # noqa: E731
+            pairs = [pr for n, pr in enumerate(pairs) if n % 5 == common.SEED % 5 or (always(pr[0]) and always(pr[1]))]
         for (x, y) in pairs:
-            for start in range(1 + (hash(x[1]) % step), limit, 60 * step):
+            for start in range(1 + (zlib.crc32(repr(x).encode()) % step), limit, 60 * step):
                 jobs.append((x, y, list(range(start, start + 60 * step, step))))
         npre = 0
         for out in pool.imap_unordered(_line_preempt, jobs, chunksize=2):
